@@ -192,9 +192,9 @@ def check(mg, kind, dt, via, tmpdir):
     bad = []
     rng = np.random.RandomState(3)
     def mk(n, s):
-        if dt == "bool": return (rng.rand(*s) > 0.5)
-        if dt.startswith("int"): return (rng.rand(*s) * 10).astype(dt)
-        return (rng.rand(*s) + 0.5).astype(dt)
+        if dt == "bool": return np.asarray(rng.rand(*s) > 0.5)
+        if dt.startswith("int"): return np.asarray(rng.rand(*s) * 10).astype(dt)
+        return np.asarray(rng.rand(*s) + 0.5).astype(dt)
     try:
         t = make_tensor(mg, kind, mk)
     except Exception as e:
